@@ -139,6 +139,13 @@ func c01one(c *mon.Ctx, env *Env, s *statement, w, gmp int, rng *rand.Rand, case
 			c.Fail("transcript-states-differ", fmt.Sprintf("prover and verifier transcripts yield different next challenges (%s)", cls), det)
 		}
 	}
+	// proving again with the very same argument objects (commitments now normalised in place) must give the same bytes
+	if s.n() <= 64 && caseNo%3 == 0 {
+		if _, pbytes2, _, err2 := s.prove(env); err2 != nil || string(pbytes2) != string(pbytes) {
+			c.Fail("second-proof-with-same-objects-differs", fmt.Sprintf("calling CreateMultiProof a second time with the same argument objects gives err=%v / different bytes (%s)", err2, cls), det)
+		}
+		c.Count("reproved_with_same_objects", 1)
+	}
 	// a deserialised copy must verify too
 	var pr2 multiproof.MultiProof
 	if err := pr2.Read(newBytesReader(pbytes)); err != nil {
